@@ -216,17 +216,34 @@ def method_set(tier):
     add("W", [], A.Result(A.Unit(), A.Prim("u8")))
     add("W", [A.ST], A.Result(A.Unit(), A.Unit()))
     # ---- callbacks
-    cbs = [([], None), ([A.Prim("u8")], None), ([A.Prim("i32"), A.Prim("f64")], A.Prim("u16")), ([A.EN], A.Prim("bool")), ([A.ST], A.ST),
+    cbs = [([], None), ([A.Prim("u8")], None), ([A.Prim("i32"), A.Prim("f64")], A.Prim("u16")), ([A.EN], A.Prim("bool")), ([A.ST], A.Prim("u8")),
            ([A.Prim("u64"), A.Prim("u64"), A.Prim("u64"), A.Prim("u64"), A.Prim("u64"), A.Prim("u64"), A.Prim("u8")], A.Prim("i64")), ([A.Prim("f32")], A.Prim("f32"))]
     for ps, r in cbs:
         add("CB", ps, r)
+    # ---- namespaced and renamed types / methods (C++ renders namespaces and renames; C must be unaffected)
+    nsst = A.Struct("NsSt", [("a", A.Prim("u8")), ("b", A.Prim("i64"))], attrs='    #[diplomat::attr(cpp, namespace = "nsx::inner")]\n', cpp_name="nsx::inner::NsSt")
+    rnen = A.Enum("RnEn", [("A", 1), ("B", 3)], attrs='    #[diplomat::attr(cpp, rename = "RenamedEn")]\n', cpp_name="RenamedEn")
+    structs.append(nsst)
+    decl_enums.append(rnen)
+    nsmethods = [dict(kind="P", params=[nsst], ret=None), dict(kind="R", params=[], ret=nsst), dict(kind="P", params=[rnen, A.Prim("u8")], ret=None),
+                 dict(kind="R", params=[], ret=A.Result(rnen, nsst)), dict(kind="P", params=[A.Opt(nsst, "std")], ret=None),
+                 dict(kind="P", params=[A.Prim("u16")], ret=None, cpp_name="renamed_method", attrs='#[diplomat::attr(cpp, rename = "renamed_method")] ')]
     # assign owners and names
     per = 120
     for i, m in enumerate(methods):
         m["i"] = i
         m["owner"] = "T%d" % (i // per)
         m["name"] = "%s%d" % (m["kind"].lower(), i)
-    types = dict(enums=decl_enums, structs=structs, owners=sorted({m["owner"] for m in methods}, key=lambda s: int(s[1:])))
+    owners = sorted({m["owner"] for m in methods}, key=lambda s: int(s[1:]))
+    for m in nsmethods:
+        m["i"] = len(methods)
+        m["owner"] = "TNs"
+        m["name"] = "%s%d" % (m["kind"].lower(), m["i"])
+        methods.append(m)
+    owners.append("TNs")
+    types = dict(enums=decl_enums, structs=structs, owners=owners,
+                 owner_attrs={"TNs": '    #[diplomat::attr(cpp, namespace = "nsx")]\n    #[diplomat::attr(cpp, rename = "RenT")]\n'},
+                 cpp_owner={"TNs": "nsx::RenT"})
     return types, methods
 
 
@@ -391,11 +408,11 @@ def render_crate(types, methods):
     for st in types["structs"]:
         L.append(st.decl())
     for o in types["owners"]:
-        L.append("    #[diplomat::opaque]\n    pub struct %s;" % o)
+        L.append("%s    #[diplomat::opaque]\n    pub struct %s;" % (types.get("owner_attrs", {}).get(o, ""), o))
         L.append("    impl %s {" % o)
         for m in methods:
             if m["owner"] == o:
-                L.append("        " + rust_method(m))
+                L.append("        " + m.get("attrs", "") + rust_method(m))
         L.append("    }")
     L.append("}")
     return "\n".join(L) + "\n"
@@ -577,3 +594,236 @@ def render_c_driver(types, methods, headers):
         L.append("    c_%d_%d();" % (m["i"], j))
     L.append('    printf("DONE\\n");\n    return 0;\n}')
     return "\n".join(L) + "\n", cases
+
+
+# ---------------------------------------------------------------------------------------------
+# C++ driver
+
+CPP_PRELUDE = r"""
+#include <cstdio>
+#include <cstdlib>
+#include <cstring>
+#include <cstdint>
+#include <memory>
+#include <optional>
+#include <string>
+#include <string_view>
+#include <functional>
+extern "C" void verif_sel(size_t j);
+extern "C" size_t verif_take_log(char* buf, size_t cap);
+extern "C" void* diplomat_alloc(size_t size, size_t align);
+static char LOGBUF[1 << 16];
+static inline float f32_from_bits(unsigned long long b) { uint32_t u = (uint32_t)b; float f; memcpy(&f, &u, 4); return f; }
+static inline double f64_from_bits(unsigned long long b) { uint64_t u = (uint64_t)b; double f; memcpy(&f, &u, 8); return f; }
+static inline void dump_f32(float f) { uint32_t u; memcpy(&u, &f, 4); printf("f32:%08x", (unsigned)u); }
+static inline void dump_f64(double f) { uint64_t u; memcpy(&u, &f, 8); printf("f64:%016llx", (unsigned long long)u); }
+static inline void dump_slice(const unsigned char* p, size_t len, int elem) {
+    printf("[%llu:", (unsigned long long)len);
+    for (size_t i = 0; i < len * (size_t)elem; i++) printf("%02x", p[i]);
+    printf("]");
+}
+static inline void report_log(void) {
+    verif_take_log(LOGBUF, sizeof LOGBUF);
+    for (char* c = LOGBUF; *c; c++) if (*c == '\n') *c = '~';
+    printf(" | %s\n", LOGBUF);
+    fflush(stdout);
+}
+// reference UTF-8 recogniser (Unicode Table 3-7), independent of the library under test
+static inline bool ref_utf8(const unsigned char* b, size_t n) {
+    size_t i = 0;
+    while (i < n) {
+        unsigned char c = b[i]; size_t len; unsigned lo = 0x80, hi = 0xBF;
+        if (c <= 0x7F) { i++; continue; }
+        else if (c >= 0xC2 && c <= 0xDF) len = 2;
+        else if (c == 0xE0) { len = 3; lo = 0xA0; }
+        else if ((c >= 0xE1 && c <= 0xEC) || c == 0xEE || c == 0xEF) len = 3;
+        else if (c == 0xED) { len = 3; hi = 0x9F; }
+        else if (c == 0xF0) { len = 4; lo = 0x90; }
+        else if (c >= 0xF1 && c <= 0xF3) len = 4;
+        else if (c == 0xF4) { len = 4; hi = 0x8F; }
+        else return false;
+        if (i + len > n) return false;
+        if (b[i + 1] < lo || b[i + 1] > hi) return false;
+        for (size_t k = 2; k < len; k++) if (b[i + k] < 0x80 || b[i + k] > 0xBF) return false;
+        i += len;
+    }
+    return true;
+}
+"""
+
+
+def has_utf8_param(m):
+    return any(isinstance(t, A.Slice) and t.enc == "str" for t in m["params"])
+
+
+def cpp_fn(types, m):
+    owner = types.get("cpp_owner", {}).get(m["owner"], m["owner"])
+    return "%s::%s" % (owner, m.get("cpp_name", m["name"]))
+
+
+def cpp_case(types, m, j, case):
+    ctx = CCtx("cpp")
+    i = m["i"]
+    fn = cpp_fn(types, m)
+    k = m["kind"]
+    body = []
+    utf8 = has_utf8_param(m)
+    if k == "P":
+        args = [t.cpp_lit(v, ctx) for t, v in zip(m["params"], case)]
+        if utf8:
+            body.append("auto&& r = %s(%s);" % (fn, ", ".join(args)))
+            body.append('printf("P %d %d | %%s", r.is_ok() ? "-" : "UTF8ERR");' % (i, j))
+        else:
+            body.append("%s(%s);" % (fn, ", ".join(args)))
+            body.append('printf("P %d %d | -");' % (i, j))
+    elif k in ("R", "PR"):
+        args = []
+        if m["ret"].lifetime:
+            args.append("*" + ctx.opaque(1))
+        if k == "PR":
+            args += [m["params"][0].cpp_lit(case[0], ctx)]
+            body.append("verif_sel(%d);" % case[2])
+        else:
+            body.append("verif_sel(%d);" % j)
+        if isinstance(m["ret"], A.Unit):
+            body.append("%s(%s);" % (fn, ", ".join(args)))
+            body.append('printf("%s %d %d | ()");' % (k, i, j))
+        else:
+            body.append("auto&& r = %s(%s);" % (fn, ", ".join(args)))
+            body.append('printf("%s %d %d | ");' % (k, i, j))
+            body.append(m["ret"].cpp_dump("r"))
+    elif k == "W":
+        ci, pv, rv = case
+        args = [t.cpp_lit(v, ctx) for t, v in zip(m["params"], pv)]
+        sel = ci + 16 * (m["ret"].values().index(rv) if m["ret"] else 0)
+        body.append("verif_sel(%d);" % sel)
+        body.append("auto&& r = %s(%s);" % (fn, ", ".join(args)))
+        body.append('printf("W %d %d | ");' % (i, j))
+        if m["ret"] is None:
+            body.append("dump_slice((const unsigned char*)r.data(), r.size(), 1);")
+        else:
+            errd = 'printf("()");' if isinstance(m["ret"].err, A.Unit) else "auto errv = std::move(r).err(); %s" % m["ret"].err.cpp_dump("(*errv)")
+            body.append('if (r.is_ok()) { auto okv = std::move(r).ok(); printf("ok(()) "); dump_slice((const unsigned char*)okv->data(), okv->size(), 1); } '
+                        'else { printf("err("); %s printf(") -"); }' % errd)
+    elif k == "CB":
+        args, rv = case
+        body.append("verif_sel(%d);" % j)
+        body.append("int calls = 0; auto tok = std::make_shared<int>(0);")
+        params = ", ".join("%s x%d" % (t.cpp_type(), q) for q, t in enumerate(m["params"]))
+        rty = "void" if m["ret"] is None else m["ret"].cpp_type()
+        dumps = ' printf(";"); '.join(t.cpp_dump("x%d" % q) for q, t in enumerate(m["params"]))
+        ret = "" if m["ret"] is None else "return %s;" % m["ret"].cpp_lit(rv, ctx)
+        body.append('std::function<%s(%s)> f = [&calls, tok](%s) -> %s { calls++; printf("CBARGS %d cookie=1:"); %s printf("\\n"); %s };'
+                    % (rty, ", ".join(t.cpp_type() for t in m["params"]), params, rty, i, dumps, ret))
+        body.append("%s(std::move(f)); f = nullptr;" % fn)
+        body.append('printf("CB %d %d | calls=%%d destroyed=%%d", calls, (int)(tok.use_count() == 1));' % (i, j))
+    stmts = ctx.pre + body + ctx.post + ["report_log();"]
+    return "static void c_%d_%d(void) { %s }" % (i, j, " ".join(stmts))
+
+
+def expected_line_cpp(m, j, case):
+    e = expected_line(m, j, case)
+    if m["kind"] == "W" and m["ret"] is not None and case[2][0] == "err":
+        ci, pv, rv = case
+        return "W %d %d | %s - | CALL %d:%s~" % (m["i"], j, m["ret"].dump(rv), m["i"], ";".join(t.dump(v) for t, v in zip(m["params"], pv)))
+    if m["kind"] == "P" and has_utf8_param(m):
+        bad = any(isinstance(t, A.Slice) and t.enc == "str" and v != ("null",) and not _py_utf8(bytes(v)) for t, v in zip(m["params"], case))
+        if bad:
+            return "P %d %d | UTF8ERR | " % (m["i"], j)
+    return e
+
+
+def _py_utf8(b):
+    try:
+        b.decode("utf8")
+        return True
+    except UnicodeDecodeError:
+        return False
+
+
+BOUNDARY = [0x00, 0x7F, 0x80, 0x8F, 0x90, 0x9F, 0xA0, 0xBF, 0xC0, 0xC1, 0xC2, 0xDF, 0xE0, 0xE1, 0xEC, 0xED, 0xEE, 0xEF, 0xF0, 0xF1, 0xF3, 0xF4, 0xF5, 0xFF]
+
+
+def cpp_utf8_sweep(types, m):
+    """exhaustive: all byte strings of length <= 2, length 3 and 4 over the boundary alphabet, through a direct &str parameter"""
+    fn = cpp_fn(types, m)
+    return ("""static void utf8_%(i)d(void) {
+    static const unsigned char AL[] = { %(al)s };
+    unsigned long long total = 0, accepted = 0, mism = 0, leaked = 0; unsigned char first[4] = {0,0,0,0}; size_t firstn = 0;
+    unsigned char buf[4];
+    auto one = [&](size_t n) {
+        auto r = %(fn)s(std::string_view((const char*)buf, n));
+        size_t ln = verif_take_log(LOGBUF, sizeof LOGBUF);
+        bool want = ref_utf8(buf, n);
+        total++; if (r.is_ok()) accepted++;
+        bool reached = ln > 0;
+        if (r.is_ok() != want || reached != want) { if (!mism) { memcpy(first, buf, n); firstn = n; } mism++; }
+        if (!want && reached) leaked++;
+    };
+    one(0);
+    for (int a = 0; a < 256; a++) { buf[0] = (unsigned char)a; one(1); for (int b = 0; b < 256; b++) { buf[1] = (unsigned char)b; one(2); } }
+    for (size_t a = 0; a < sizeof AL; a++) for (size_t b = 0; b < sizeof AL; b++) for (size_t c = 0; c < sizeof AL; c++) {
+        buf[0] = AL[a]; buf[1] = AL[b]; buf[2] = AL[c]; one(3);
+        for (size_t d = 0; d < sizeof AL; d++) { buf[3] = AL[d]; one(4); }
+    }
+    printf("UTF8 %(i)d total=%%llu accepted=%%llu mismatches=%%llu reached_rust_when_invalid=%%llu first=", total, accepted, mism, leaked);
+    for (size_t q = 0; q < firstn; q++) printf("%%02x", first[q]);
+    printf("\\n"); fflush(stdout);
+}""" % dict(i=m["i"], fn=fn, al=", ".join(str(x) for x in BOUNDARY)))
+
+
+def utf8_sweep_expected():
+    total = acc = 0
+
+    def one(b):
+        nonlocal total, acc
+        total += 1
+        if _py_utf8(bytes(b)):
+            acc += 1
+    one([])
+    for a in range(256):
+        one([a])
+        for b in range(256):
+            one([a, b])
+    for a in BOUNDARY:
+        for b in BOUNDARY:
+            for c in BOUNDARY:
+                one([a, b, c])
+                for d in BOUNDARY:
+                    one([a, b, c, d])
+    return total, acc
+
+
+def render_cpp_drivers(types, methods, headers, nshards=16):
+    """returns ([source texts], cases, sweep methods): shard k holds every k-th method's cases"""
+    cases = expand_cases(methods)
+    sweeps = [m for m in methods if m["kind"] == "P" and len(m["params"]) == 1 and isinstance(m["params"][0], A.Slice)
+              and m["params"][0].enc == "str" and m["params"][0].kind == "ref"]
+    head = [CPP_PRELUDE] + ['#include "%s"' % h for h in headers]
+    shards = []
+    for k in range(nshards):
+        L = list(head)
+        mine = [(m, j, c) for (m, j, c) in cases if m["i"] % nshards == k]
+        for (m, j, c) in mine:
+            L.append(cpp_case(types, m, j, c))
+        L.append("void run_shard_%d(void) {" % k)
+        for (m, j, c) in mine:
+            L.append("    c_%d_%d();" % (m["i"], j))
+        L.append("}")
+        shards.append("\n".join(L) + "\n")
+    L = list(head)
+    for m in sweeps:
+        L.append(cpp_utf8_sweep(types, m))
+    for k in range(nshards):
+        L.append("void run_shard_%d(void);" % k)
+    L.append("int main() {")
+    for k in range(nshards):
+        L.append("    run_shard_%d();" % k)
+    for m in sweeps:
+        L.append("    utf8_%d();" % m["i"])
+    L.append('    printf("DONE\\n");\n    return 0;\n}')
+    shards.append("\n".join(L) + "\n")
+    order = []
+    for k in range(nshards):
+        order += [(m, j, c) for (m, j, c) in cases if m["i"] % nshards == k]
+    return shards, order, sweeps
